@@ -796,6 +796,8 @@ struct E2eCfg {
     mtu: usize,
     /// 6LoWPAN address contexts (8-octet prefixes) configured on both interfaces
     ctx: Vec<[u8; 8]>,
+    /// TCP case: the reference interfaces get the same MTU (same MSS), B listens on PORT_TCP
+    tcp: bool,
 }
 
 fn e2e_cfg(c: &Case) -> E2eCfg {
@@ -815,6 +817,7 @@ fn e2e_cfg(c: &Case) -> E2eCfg {
         },
         ident: c.get_i("ident", 0x1234) as u16,
         mtu: c.get_i("mtu", 127) as usize,
+        tcp: c.get("tcp") == Some("1"),
         ctx: match c.get("ctx").unwrap_or("-") {
             "-" => vec![],
             s => s
@@ -854,7 +857,7 @@ fn mk_pair(medium: Medium, cfg: &E2eCfg) -> Pair {
         (Some(x), Some(y)) => !same_prefix64(&x, &y),
         _ => cfg.xa.is_some() != cfg.xb.is_some(),
     };
-    let mtu = if medium == Medium::Ip { 4000 } else { cfg.mtu };
+    let mtu = if medium == Medium::Ip && !cfg.tcp { 4000 } else { cfg.mtu };
     let mut a = mk_node(medium, Some(cfg.lla), &ia, if need_gw { Some(lb) } else { None }, mtu, 0x1111);
     let mut b = mk_node(medium, Some(cfg.llb), &ib, if need_gw { Some(la) } else { None }, mtu, 0x2222);
     for c in &cfg.ctx {
@@ -863,6 +866,9 @@ fn mk_pair(medium: Medium, cfg: &E2eCfg) -> Pair {
     }
     a.sockets.get_mut::<icmp::Socket>(a.h_icmp).bind(icmp::Endpoint::Ident(cfg.ident)).unwrap();
     b.sockets.get_mut::<icmp::Socket>(b.h_icmp).bind(icmp::Endpoint::Ident(cfg.ident ^ 0xffff)).unwrap();
+    if cfg.tcp {
+        b.sockets.get_mut::<tcp::Socket>(b.h_tcp).listen(PORT_TCP).unwrap();
+    }
     let dst_b = if let Some(m) = cfg.dst_m {
         m
     } else if cfg.dst_x {
@@ -1065,6 +1071,20 @@ fn queue_op(p: &mut Pair, cfg: &E2eCfg, t: &[&str]) -> bool {
             }
             true
         }
+        "tcp" => {
+            // one step of a TCP conversation A -> B:PORT_TCP; act = connect | send:<n> | close | none
+            let act = kv(t, "act");
+            let (iface, sockets) = (&mut p.a.iface, &mut p.a.sockets);
+            let sock = sockets.get_mut::<tcp::Socket>(p.a.h_tcp);
+            if act == "connect" {
+                let _ = sock.connect(iface.context(), (IpAddress::Ipv6(dst), PORT_TCP), 50000u16);
+            } else if let Some(n) = act.strip_prefix("send:") {
+                let _ = sock.send_slice(&pattern(kvi(t, "pat") as u8, n.parse().unwrap()));
+            } else if act == "close" {
+                sock.close();
+            }
+            true
+        }
         "eburst" => {
             // k echo requests of the same size queued at once (oracle only): the replies are generated
             // by the receiver while its fragmenter may still be busy with the previous reply
@@ -1161,7 +1181,7 @@ fn run_op(p: &mut Pair, cfg: &E2eCfg, op: &str, out: Option<&mut dyn Write>) -> 
     }
     let groups = if is154 { print_dgrams(out, "ab", &fa, &mut p.tag0[0]) } else { (0..fa.len()).map(|i| vec![i]).collect() };
     // deliver: the schedule applies to the frames of a single datagram; several datagrams go in order
-    let sched = if t[0] == "burst" || t[0] == "eburst" { "io" } else { kv(&t, "sched") };
+    let sched = if t[0] == "burst" || t[0] == "eburst" || t[0] == "tcp" { "io" } else { kv(&t, "sched") };
     for g in &groups {
         for j in schedule(sched, g.len()) {
             p.b.dev.rx.push_back(fa[g[j]].clone());
@@ -1191,6 +1211,23 @@ fn run_op(p: &mut Pair, cfg: &E2eCfg, op: &str, out: Option<&mut dyn Write>) -> 
             print_dgrams(out, "ba", &fb, &mut p.tag0[1]);
         }
         p.a.dev.rx.extend(fb);
+        if t[0] == "tcp" {
+            // A only takes the frames in (its answer is what the next step observes)
+            let (iface, dev, sockets) = (&mut p.a.iface, &mut p.a.dev, &mut p.a.sockets);
+            let now = Instant::from_millis(p.a.now);
+            let ok = catch_unwind(AssertUnwindSafe(|| {
+                for _ in 0..64 {
+                    if matches!(iface.poll_ingress_single(now, dev, sockets), smoltcp::iface::PollIngressSingleResult::None) {
+                        break;
+                    }
+                }
+            }))
+            .is_ok();
+            if !ok {
+                r.panicked = true;
+                return r;
+            }
+        } else {
         match pump(&mut p.a) {
             Ok(extra) => {
                 // anything A sends now (nothing expected) is delivered so that the state stays in step
@@ -1201,6 +1238,7 @@ fn run_op(p: &mut Pair, cfg: &E2eCfg, op: &str, out: Option<&mut dyn Write>) -> 
                 r.panicked = true;
                 return r;
             }
+        }
         }
         let rx_a = p.a.take_raw();
         if rx_a.is_empty() {
@@ -1214,6 +1252,17 @@ fn run_op(p: &mut Pair, cfg: &E2eCfg, op: &str, out: Option<&mut dyn Write>) -> 
     // drain socket buffers so that they never fill up
     while p.b.sockets.get_mut::<udp::Socket>(p.b.h_udp).recv().is_ok() {}
     while p.a.sockets.get_mut::<icmp::Socket>(p.a.h_icmp).recv().is_ok() {}
+    if t[0] == "tcp" {
+        // the listener hands the data to the application; time passes (delayed ACKs fire)
+        let sock = p.b.sockets.get_mut::<tcp::Socket>(p.b.h_tcp);
+        let mut buf = [0u8; 2048];
+        while sock.can_recv() && sock.recv_slice(&mut buf).map(|n| n > 0).unwrap_or(false) {}
+        if !sock.is_open() {
+            let _ = sock.listen(PORT_TCP);
+        }
+        p.a.now += 49;
+        p.b.now += 49;
+    }
     p.a.now += 1;
     p.b.now += 1;
     r
@@ -1586,6 +1635,30 @@ fn gen_e2e_case_x(rng: &mut Rng, id: String, tier: &str, with_eburst: bool) -> C
         ("ctx".into(), if ctx.is_empty() { "-".into() } else { ctx.iter().map(|c| hex(c)).collect::<Vec<_>>().join(",") }),
     ];
     let mut c = Case { id, cfg, ops: vec![] };
+    // one case in eight is a TCP conversation (connect, data in one or more segments, close)
+    if !mcast && rng.chance(1, 8) {
+        c.cfg.push(("tcp".into(), "1".into()));
+        let ecfg = e2e_cfg(&c);
+        let mut pip = mk_pair(Medium::Ip, &ecfg);
+        let mut acts: Vec<String> = vec!["connect".into(), "none".into(), "none".into()];
+        for _ in 0..rng.range(1, 3) {
+            acts.push(format!("send:{}", *rng.pick(&[1usize, 10, 47, 48, 67, 68, 100, 200, 500])));
+            acts.push("none".into());
+            acts.push("none".into());
+        }
+        acts.push("close".into());
+        for _ in 0..4 {
+            acts.push("none".into());
+        }
+        for a in acts {
+            let mut op = format!("tcp act={} pat={}", a, rng.next() as u8);
+            let (ab, ba) = ref_op(&mut pip, &ecfg, &op);
+            let hx = |v: &Vec<Vec<u8>>| if v.is_empty() { "-".to_string() } else { v.iter().map(|d| hex(d)).collect::<Vec<_>>().join(",") };
+            op.push_str(&format!(" ref={} rref={}", hx(&ab), hx(&ba)));
+            c.ops.push(op);
+        }
+        return c;
+    }
     let ecfg = e2e_cfg(&c);
     let mut pip = mk_pair(Medium::Ip, &ecfg);
     let nops = rng.range(1, 4);
@@ -1691,7 +1764,7 @@ fn oracle_e2e_case(c: &Case, fails: &mut Vec<String>, stats: &mut BTreeMap<Strin
         let rrefs = refs_of(&t, "rref");
         // which request datagrams must arrive: all, unless a fragment was withheld or the datagram
         // did not fit the fragmentation buffer (then it is not sent at all)
-        let sched = if t[0] == "burst" || t[0] == "eburst" { "io" } else { kv(&t, "sched") };
+        let sched = if t[0] == "burst" || t[0] == "eburst" || t[0] == "tcp" { "io" } else { kv(&t, "sched") };
         let dropped = sched.starts_with("drop") && nfrag_ab > 1;
         let got_ab: Vec<&Vec<u8>> = r.delivered.iter().filter(|(d, _)| d == "ab").map(|(_, x)| x).collect();
         let got_ba: Vec<&Vec<u8>> = r.delivered.iter().filter(|(d, _)| d == "ba").map(|(_, x)| x).collect();
